@@ -148,9 +148,11 @@ void explore(Ctx &ctx) {
     std::vector<unsigned long> masks; for (auto &m : mask_set(false)) if (m.name == "all" || m.name == "-avx2" || m.name == "-ssse3" || m.name == "none") masks.push_back(m.mask);
     Rng r = ctx.rng("c11");
     uint64_t idx = 0;
-    static const size_t PL[] = { 0, 1, 15, 16, 17, 31, 32, 33, 63, 64, 65, 100, 127, 128, 129, 255, 256, 257, 300, 511, 512, 513, 600 };
+    // includes the lengths for which the helpers have (or could be given) dedicated word-wise / assembly fast paths: 4, 8, 12, 24, 48
+    static const size_t PL[] = { 0, 1, 2, 3, 4, 7, 8, 9, 12, 15, 16, 17, 24, 31, 32, 33, 48, 63, 64, 65, 100, 127, 128, 129, 255, 256, 257, 300, 511, 512, 513, 600 };
     for (size_t oi = 0; oi < O.size(); oi++) {
         const ct::Op &op = O[oi];
+        if (op.vg_only) continue;          // allocates internally: addresses are not comparable between two executions (valgrind stage only)
         std::vector<size_t> pls;
         if (op.max_publen == 0) pls = { 0 };
         else for (size_t l : PL) if (l <= op.max_publen) pls.push_back(l);
